@@ -240,6 +240,7 @@ EnBeginCb(d, m, c) ==
     /\ LET f == Top(m) IN
        /\ IsGroup(f.phase)
        /\ c \in f.pending
+       /\ ~f.gfail        \* guards are evaluated one after the other; none is started once one has failed
        /\ IF m.async THEN \A o \in f.open : d.cbs[o.c].coro
                      ELSE f.open = {} /\ ~m.raising
 DoBeginCb(d, m, c) ==
